@@ -129,13 +129,34 @@ class StepModel(LevyModel):
                  representation: LevyRepresentation = LevyRepresentation.CENTER):
         triplet = LevyTriplet(sigma=float(sigma), nu=measure, a=float(a), representation=representation)
         super().__init__(model_type=ModelType.HEM, levy_triplet=triplet, cumulant=None)
+        self._declared_rep = representation
 
     def __repr__(self):
         t = self.levy_triplet
         return f"StepModel(a={t.a}, sigma={t.sigma}, rep={t.representation})"
 
     def levy_exponent_pure_jump(self, x):
-        raise NotImplementedError
+        """int (exp(z y) - 1 - z y c(y)) nu(dy), z = x, with the cut-off c of the DECLARED representation
+        (closed form per piece; transcendental, hence not exact: only used to build ExponentialOfLevyModel)"""
+        import cmath
+        nu = self.levy_triplet.nu
+        inner = getattr(nu, "levy_measure", nu)        # un-truncated step measure
+        rep = getattr(self, "_declared_rep", self.levy_triplet.representation)
+        z = complex(x)
+        tot = 0j
+        for lo, hi, d in inner.pieces():
+            lo_f, hi_f, d_f = float(lo), float(hi), float(d)
+            if d_f == 0.0:
+                continue
+            e = (cmath.exp(z * hi_f) - cmath.exp(z * lo_f)) / z if z != 0 else (hi_f - lo_f)
+            tot += d_f * (e - (hi_f - lo_f))
+        if rep == LevyRepresentation.CENTER:
+            comp = inner.moment_q(-math.inf, math.inf, 1)
+        elif rep == LevyRepresentation.ONEONE or (rep == LevyRepresentation.TILDE and not inner.finite_variation):
+            comp = inner.moment_q(-1, 1, 1)
+        else:
+            comp = Fraction(0)
+        return tot - z * float(comp)
 
     def intensity(self):
         nu = self.levy_triplet.nu
@@ -193,7 +214,7 @@ def real_model_specs(rng: random.Random):
     u = rng.uniform
     return [
         {"family": "HEM", "kwargs": dict(sigma=u(0.05, 0.3), p=u(0.3, 0.7), eta1=u(15, 40), eta2=u(15, 50), intensity=u(1, 8))},
-        {"family": "MERTON", "kwargs": dict(sigma=u(0.05, 0.2), mu_j=u(-0.05, 0.05), sigma_j=u(0.03, 0.1), intensity=u(1, 8))},
+        {"family": "MERTON", "kwargs": dict(sigma=u(0.05, 0.2), mu_j=u(0.0, 0.05), sigma_j=u(0.03, 0.1), intensity=u(1, 8))},
         {"family": "VG", "kwargs": dict(sigma=u(0.08, 0.3), nu=u(0.02, 0.3), theta=u(-0.2, 0.2))},
         {"family": "CGMY", "kwargs": dict(c=u(0.05, 1.0), g=u(8, 20), m=u(8, 25), y=u(0.2, 0.8))},
         {"family": "CGMY", "kwargs": dict(c=u(0.02, 0.2), g=u(8, 20), m=u(8, 25), y=u(1.1, 1.6))},
